@@ -22,6 +22,9 @@ func runC17(c *Ctx) {
 	c.Clause("C17.7 the closed-connection stand-in retransmits CONNECTION_CLOSE with exponential back-off: the packet counter is incremented atomically per packet and the retransmission is reached only when the count is a power of two; the remote-close stand-in ignores packets; ReplaceWithClosed picks the local stand-in exactly when a CONNECTION_CLOSE packet exists")
 	c.NotCovered("promptness; leak-freedom as such; timeout accuracy")
 	c.Clause("C17.8 no lost wake-up on streams: every method that writes a field which the blocking loops of Read/Peek/Write test in their branch conditions calls signalRead/signalWrite on every path after the store (in itself or in the private callers that wrap it); conditional-signalling sites are frozen exceptions with reasons")
+	c.Clause("C17.15 handleNewConn refuses (CONNECTION_REFUSED) the handshaking connection when the listener is closed (both the early and the non-early wait) and when the accept queue is full")
+	c.Clause("C17.14 datagramQueue.Add queues a datagram only after consulting the closed channel (SendDatagram after the connection ended returns the cause)")
+	c.Clause("C17.13 every return of Conn.run passes handleCloseError, and the send queue's goroutine is started before run can wait for it")
 	c.Clause("C17.12 a short-header packet that carries STREAM frames restarts the idle timer's first-ack-eliciting-after-idle mark (the idle timeout must not fire while the endpoint is still sending data)")
 	c.Clause("C17.11 SendStream / ReceiveStream call back into the connection (streamSender) only after releasing their own mutex (the repository's stated rule; lock-order inversion with the framer / streams map otherwise)")
 	c.Clause("C17.10 datagram queue: every queued datagram signals rcvd, every Pop signals sent, CloseWithError records the error and then closes closed on every path, and both blocking waits listen on closed")
@@ -40,6 +43,9 @@ func runC17(c *Ctx) {
 	c.rule("C17.10", func() { c17DatagramQueueWakeups(c) })
 	c.rule("C17.11", func() { c17CallbacksOutsideStreamMutex(c, "C17.11") })
 	c.rule("C17.12", func() { c17IdleRestartCountsStreamFrames(c, "C17.12") })
+	c.rule("C17.13", func() { c17RunSingleExit(c) })
+	c.rule("C17.14", func() { c17NoDatagramAfterClose(c) })
+	c.rule("C17.15", func() { c17ServerRefusesOnClose(c) })
 }
 
 // waitExceptions: blocking sites that are not woken by a shutdown-reachable signal, with the reason why that is right.
